@@ -189,12 +189,20 @@ impl Format {
             {
                 // If we've found the second separator of the previous token, let's simply increment the start index of the next substring.
                 if idx == prev_idx
-                    && (prev_item.second_sep_char.is_none() || prev_item.second_sep_char_is(char))
+                    && cur_token == Token::OffsetHours
+                    && (char == '+' || char == '-')
                 {
-                    // The sign of an offset that follows the separator of the previous token is skipped here.
-                    if cur_token == Token::OffsetHours && char == '-' {
+                    // The sign of an offset, after the separators of the previous token (one or two).
+                    if char == '-' {
                         offset_sign = -1;
                     }
+                    prev_idx += char.len_utf8();
+                    continue;
+                }
+
+                if idx == prev_idx
+                    && (prev_item.second_sep_char.is_none() || prev_item.second_sep_char_is(char))
+                {
                     prev_idx += char.len_utf8();
                     continue;
                 }
